@@ -5,6 +5,17 @@ ALL = ["C%02d" % i for i in range(1, 21)]
 TB = ("Trusted: Coq 8.16.1 kernel + bytecode VM (vm_compute; no native_compute); the Python harness "
       "(generators, exact float->rational conversion, epgpy drivers); NumPy/CPython. ")
 CLAIMED = {
+ "C11": dict(
+   text="Machine-checked proof (Coq) over a model partly GENERATED from sequence.py on every run (the `math` function table with its derivative "
+        "templates, the virtual-operator table and the __init__ signatures of the concrete classes): deriv_table_sound (every table entry is the "
+        "partial derivative, Coquelicot is_derive, under the stated domain conditions), derive_sound (Expression.derive is the derivative for every "
+        "expression tree, structural induction), map_eval and repeat_spec (substitution commutes with evaluation), vop_table_ok (finite check by "
+        "vm_compute: each virtual operator binds to the same-named parameters of the class it is named after).",
+   design_ref="DESIGN.md section 4 C11",
+   note=TB + "Translator translator/seq_tables.py (ast extraction) and the ten primitive semantics (incl. powR for **); model tied to epgpy by exact rational "
+        "vm_compute and Interval correspondence of eval/derive/map, virtual-operator calls with positional/keyword arguments in random order under a "
+        "PYTHONHASHSEED sweep; jacobian/hessian/crlb wrappers are covered by central differences only (testing). Axioms: classical reals, funext, classic.",
+   technique="Coq proof (structural induction, is_derive; finite table check by vm_compute) + table translator + correspondence + hash-seed sweep"),
  "C20": dict(
    text="Machine-checked proof (Coq): one guard per documented invalid-input class, composed as the constructors / prepare / _format_states / "
         "_parse_partials / check compose them (Model/Validate.v); 75 universally quantified theorems reject_<class> (every member: any magnitude, "
